@@ -9,6 +9,7 @@ package main
 //	i <n> <part>...                 ForkId.ForkIdString of a described fork id
 //	p <name>                        parseRunFilename
 //	u <current> <seen>              Metadata.cache uniquifier test
+//	a ...                           attempt lifecycle op sequence (c11_attempts.go)
 //	t <psid> <nnodes> {<rel> <parent> <nforks> {<nchunks> <nparts> <part>...}}
 //	  <nq> {<node> <fork> <chunk> <runtype> <uniq> <file>}
 //	                                a pipestance skeleton and journal writers
@@ -34,6 +35,8 @@ func init() {
 }
 
 type c11Part = core.VerifForkPart
+
+var attemptSeq int
 
 // ------------------------------------------------------------- encoding
 func c11Keys(ks []string) string {
@@ -518,6 +521,13 @@ func c11Gen(tier string, r *hx.Rng) {
 			fmt.Fprintf(w, "u %s %s\n", hx.H(cur), hx.H(seen))
 		}
 	}
+	na := 500
+	if thorough {
+		na = 8000
+	}
+	for i := 0; i < na; i++ {
+		fmt.Fprintln(w, c11GenAttempt(r))
+	}
 	ns := 400
 	if thorough {
 		ns = 12000
@@ -618,6 +628,10 @@ func c11Impl(args []string) {
 			}
 		case "u":
 			fmt.Fprintln(w, b2i(core.VerifUniquifierAccepted(hx.U(f[1]), hx.U(f[2]))))
+		case "a":
+			attemptSeq++
+			o, _ := c11RunAttempt(c11ParseAttempt(f), scratch, attemptSeq)
+			fmt.Fprintln(w, o)
 		case "t":
 			s := c11ParseScenario(f)
 			b := c11Build(s)
@@ -702,6 +716,17 @@ func c11Oracle(args []string) {
 				fmt.Fprintln(w, "FAIL journal_collision", hx.H(a), hx.H(b))
 			case strings.ContainsAny(ea, "/\x00") || strings.Contains(core.VerifEncodeJournalName(ea), "."):
 				fmt.Fprintln(w, "FAIL unsafe_name", hx.H(a), hx.H(ea))
+			default:
+				fmt.Fprintln(w, "ok")
+			}
+		case "a":
+			attemptSeq++
+			o, v := c11RunAttempt(c11ParseAttempt(f), scratch, attemptSeq)
+			switch {
+			case v != "":
+				fmt.Fprintln(w, "FAIL", v)
+			case strings.Contains(o, "err"):
+				fmt.Fprintln(w, "FAIL attempt_ops_error", o)
 			default:
 				fmt.Fprintln(w, "ok")
 			}
